@@ -112,3 +112,67 @@ LEVEL_TEXT += (" C07_pipeline / C07_pipeline_total / C07_pipeline_own_stubs / C0
                "dot/link/box per datum via a permutation of the data indices; dots and ticks at one affine increasing map of "
                "the full instant; links through the datum's own reported stubs; box sizes and texts; tick texts; C08's "
                "disjointness for nodeSpacing >= 3, layerGap >= 1), and that model is tied end to end (command 850).")
+
+
+# ---- the xml family: label texts as serialised in the SVG bytes (coq/Text/Xml.v, API 503) ----
+from harness.props import c07xml as _X  # noqa: E402
+
+RULE += " " + _X.RULE
+LEVEL_TEXT += (" C07_text_verbatim_xml / C07_text_xml_injective / C07_text_xml_plain: the SVG serialisation of a label text "
+               "(named entities for & < >, decimal character references above 127) is read back verbatim for every list of "
+               "Unicode code points (exhaustive kernel computation over all 1 114 112 code points for the decimal references); "
+               "tied to the raw bytes of the export by the xml family (API 503).")
+
+
+def _isx(x):
+    py = x.get("py", x) if isinstance(x, dict) else {}
+    return isinstance(py, dict) and py.get("fam") == "xml"
+
+
+def _disp(name, own):
+    def f(case, *a):
+        return getattr(_X, name)(case, *a) if _isx(case) else own(case, *a)
+    f.__name__ = name
+    return f
+
+
+impl = _disp("impl", impl)
+compare = _disp("compare", compare)
+rebuild = _disp("rebuild", rebuild)
+oracle = _disp("oracle", oracle)
+nontrivial = _disp("nontrivial", nontrivial)
+shrink_candidates = _disp("shrink_candidates", shrink_candidates)
+_gen0, _prep0, _extra0, _search0 = gen, prepare_compare, extra_evidence, search
+
+
+def gen(rng, tier):
+    for c in _gen0(rng, tier):
+        yield c
+    for c in _X.gen(rng, tier):
+        yield c
+
+
+def prepare_compare(cases, impl_out, model_out, workdir):
+    idx = [i for i, c in enumerate(cases) if not _isx(c)]
+    sc, si, sm = [cases[i] for i in idx], [impl_out[i] for i in idx], [model_out[i] for i in idx]
+    _prep0(sc, si, sm, workdir)
+    for j, i in enumerate(idx):
+        cases[i], model_out[i] = sc[j], sm[j]
+
+
+def extra_evidence(cases, impl_out, model_out):
+    idx = [i for i, c in enumerate(cases) if not _isx(c)]
+    ev = _extra0([cases[i] for i in idx], [impl_out[i] for i in idx], [model_out[i] for i in idx])
+    xs = [(c, io) for c, io in zip(cases, impl_out) if _isx(c) and isinstance(io, dict) and "raw" in io]
+    ev["xml_cases"] = len(xs)
+    ev["xml_texts_compared"] = sum(len(io["raw"]) for _, io in xs)
+    ev["xml_texts_needing_escape"] = sum(1 for c, _ in xs for t in c["py"]["texts"] if any(ch in "&<>" or ord(ch) > 127 for ch in t))
+    return ev
+
+
+def search(rng, tier, mism):
+    for c in _search0(rng, tier, [c for c in mism if not _isx(c)]):
+        yield c
+    for c in mism:
+        if _isx(c):
+            yield c
